@@ -48,9 +48,28 @@ def find_engine(ctx):
                         names = dict((v, n) for v, n in st["rv"].get("variants", []))
                         kinds |= {names.get(v) for v, _ in t["arms"]}
         kinds &= RULE_KINDS
+        # the engine decides what each rule consumes: its dispatch sits among set operations on the artifact queue
+        region_calls = {callee_name(b["term"]) for b in f["blocks"] if b["term"] and b["term"]["k"] == "call" and not b["cleanup"]}
+        if not any((c or "").startswith("std::collections::BTreeSet::") for c in region_calls):
+            continue
         if len(kinds) >= 4 and (best is None or len(kinds) > best[0]):
             best = (len(kinds), f)
-    return best[1] if best else None
+    if not best:
+        return None
+    # the dispatch may live in a private helper (or a method of a private struct): the engine is the function of that module
+    # through which the other modules reach it
+    cur = best[1]
+    mod = cur["path"].split("::")[0] + "::"
+    for _ in range(6):
+        callers = {fx.root_of(fx.fns[ck])["key"] for ck in fx.fns for (cbb, ct, tgt) in cg.sites.get(ck, ()) if tgt == cur["key"]}
+        callers.discard(cur["key"])
+        if len(callers) == 1:
+            c = fx.fns[next(iter(callers))]
+            if c["path"].startswith(mod) and not c.get("exp"):
+                cur = c
+                continue
+        break
+    return cur
 
 
 def find_matchers(fx):
@@ -264,12 +283,28 @@ def run(ctx):
             if k != "call":
                 continue
             t = b.blocks[i_]["term"]
-            for l in b.trace(t["args"][0] if t["args"] else t["dst"], (), None, {"__flow_all__": lambda tt: callee_name(tt) in (
-                    "std::iter::Iterator::filter_map", "std::iter::Iterator::map", "std::collections::BTreeMap::iter", "std::iter::Iterator::cloned")}):
-                if l.path and l.path[-1][0] == "f":
-                    res.add(l.path[-1][1])
-                elif l.path:
-                    res.add(str(l.path[-1]))
+            # only the ORIGIN of the elements is wanted here (which field of the link they are computed from): every call on the
+            # way (path cleaning, conversions) is transparent
+            FLOW = {"__flow_all__": lambda tt: True, "__content__": True, "__agg_all__": True}
+            SRC = lambda tt: callee_name(tt) in ("std::collections::BTreeMap::iter", "std::collections::BTreeMap::keys", "std::collections::BTreeMap::into_iter",
+                                                 "std::collections::HashMap::iter", "std::collections::HashMap::keys")
+            if t["args"]:
+                lv = b.trace(t["args"][0], (), SRC, FLOW)
+            else:
+                # a collection filled element by element (a desugared collect, or a loop of inserts): what its elements come from
+                lv = b.trace(t["dst"], (ELEM,), SRC, FLOW)
+            for l in lv:
+                if l.kind == "call" and SRC(l.data[1]):
+                    # the map that is iterated: which field of the link it is
+                    for (k2, i2, p2) in root_ids(b, l.data[1]["args"][0]):
+                        fields = [x[1] for x in p2 if x[0] == "f" and x[1] in ("materials", "products")]
+                        res.add(fields[-1] if fields else "?")
+                    continue
+                fields = [x[1] for x in l.path if x[0] == "f" and x[1] in ("materials", "products")]
+                if fields:
+                    res.add(fields[-1])
+                elif l.kind not in ("const", "agg") and not (l.kind == "param" and not l.path):
+                    res.add(str(l.path[-1]) if l.path else "?")
         return res
     diffs = [(i, t) for (i, t) in b.calls_named("std::collections::BTreeSet::difference") if not on_match_arm(i)]
     named = {}
